@@ -33,7 +33,7 @@ var (
 )
 
 type stats struct {
-	locks, unlocks, gos, yields, dense, onces, ranges, skipped, files int
+	locks, unlocks, gos, yields, dense, onces, ranges, skipped, files, pools, selects int
 }
 
 var st stats
@@ -107,9 +107,8 @@ func main() {
 				continue
 			}
 			rel, _ := filepath.Rel(root, name)
-			if strings.HasSuffix(rel, "_verif.go") {
-				continue // overlay files are harness code
-			}
+			// overlay files (*_verif.go) are instrumented too: their accessors take repo locks, and a real
+			// Lock() against a mutex held by a parked task would wedge the bubble
 			isDense := dense[rel]
 			for _, d := range denseDirs {
 				if strings.HasPrefix(rel, d) {
@@ -137,8 +136,8 @@ func main() {
 	for _, w := range warnings {
 		fmt.Fprintln(os.Stderr, "warn:", w)
 	}
-	fmt.Printf("instrumented files=%d locks=%d unlocks=%d go=%d yields=%d dense_yields=%d once=%d map_ranges=%d skipped=%d\n",
-		st.files, st.locks, st.unlocks, st.gos, st.yields, st.dense, st.onces, st.ranges, st.skipped)
+	fmt.Printf("instrumented files=%d locks=%d unlocks=%d go=%d yields=%d dense_yields=%d once=%d map_ranges=%d pools=%d selects=%d skipped=%d\n",
+		st.files, st.locks, st.unlocks, st.gos, st.yields, st.dense, st.onces, st.ranges, st.pools, st.selects, st.skipped)
 }
 
 // stripComments keeps only comments up to the package clause and //go:
@@ -219,6 +218,7 @@ type rewriter struct {
 	rel     string
 	dense   bool
 	changed bool
+	labeled bool
 }
 
 func (r *rewriter) site(n ast.Node) string {
@@ -226,7 +226,46 @@ func (r *rewriter) site(n ast.Node) string {
 	return r.rel + ":" + strconv.Itoa(p.Line)
 }
 
+// addrOf returns an expression of pointer type for x (x itself if it already is a pointer).
+func (r *rewriter) addrOf(x ast.Expr) ast.Expr {
+	if t := r.info.TypeOf(x); t != nil {
+		if _, ok := t.Underlying().(*types.Pointer); ok {
+			return x
+		}
+	}
+	return &ast.UnaryExpr{Op: token.AND, X: x}
+}
+
+// rewritePools turns p.Get()/p.Put(x) on sync.Pool into verifhook.PoolGet(&p)/PoolPut(&p, x):
+// a real pool's content depends on earlier runs and GC timing, which would make step counts
+// (and therefore replays) depend on process history.
+func (r *rewriter) rewritePools(f *ast.File) {
+	ast.Inspect(f, func(n ast.Node) bool {
+		call, ok := n.(*ast.CallExpr)
+		if !ok {
+			return true
+		}
+		pkg, typ, meth, se, ok := r.methodOf(call)
+		if !ok || pkg != "sync" || typ != "Pool" || (meth != "Get" && meth != "Put") {
+			return true
+		}
+		if hasCall(se.X) {
+			return true
+		}
+		name := "PoolGet"
+		if meth == "Put" {
+			name = "PoolPut"
+		}
+		call.Args = append([]ast.Expr{r.addrOf(se.X)}, call.Args...)
+		call.Fun = &ast.SelectorExpr{X: ast.NewIdent("verifhook"), Sel: ast.NewIdent(name)}
+		r.changed = true
+		st.pools++
+		return true
+	})
+}
+
 func (r *rewriter) file(f *ast.File) bool {
+	r.rewritePools(f)
 	for _, d := range f.Decls {
 		fd, ok := d.(*ast.FuncDecl)
 		if !ok || fd.Body == nil {
@@ -351,8 +390,14 @@ func (r *rewriter) stmt(s ast.Stmt) ast.Stmt {
 			r.funcLitsIn(cc.Comm)
 			cc.Body = r.stmts(cc.Body)
 		}
+		if !r.labeled {
+			return r.selectRewrite(x)
+		}
 	case *ast.LabeledStmt:
+		_, isSel := x.Stmt.(*ast.SelectStmt)
+		r.labeled = isSel
 		x.Stmt = r.stmt(x.Stmt)
+		r.labeled = false
 	case *ast.GoStmt:
 		return r.goStmt(x)
 	case *ast.DeferStmt:
@@ -474,7 +519,7 @@ func (r *rewriter) hookCall(call *ast.CallExpr, site string) *ast.CallExpr {
 	case typ == "Once" && meth == "Do" && len(call.Args) == 1:
 		r.funcLitsIn(call.Args[0])
 		st.onces++
-		return hook("OnceDo", sel(se.X, "Do"), call.Args[0])
+		return hook("OnceDo", r.addrOf(se.X), call.Args[0])
 	}
 	return nil
 }
